@@ -98,6 +98,13 @@ def make_trees(r, tier, names, fgs, drv=None):
         others = [(r.choice("ab"), 1, p_, T.Node(r.choice(["Gal", "Fuc", "Xyl"]))) for p_ in r.sample([3, 4] if root == "GlcNAc" else [2, 3, 4], r.choice([1, 2]))]
         trees.append(("one-one", T.Node(root, [one] + others)))
         trees.append(("one-one", T.Node(root, others + [one])))
+    # two residues bound through the two free hydroxyls of one phosphate
+    for _ in range(3 if tier == "quick" else 20):
+        par, pp = r.choice([("Glc6P", 6), ("Man6P", 6), ("GlcNAc6P", 6), ("Gal6P", 6)])
+        T.RES.setdefault(par, (1, (2, 3, 4, 6), (), "phospho"))
+        a_, b_ = r.sample(["Man", "Gal", "Glc", "Fuc", "Xyl"], 2)
+        node = T.Node(par, [(r.choice("ab"), 1, pp, T.Node(a_)), (r.choice("ab"), 1, pp, T.Node(b_))])
+        trees.append(("phospho-bridge", node if r.random() < 0.5 else T.Node("Glc", [("b", 1, 4, node)])))
     # four substituents on a root and on an inner residue
     four = T.Node("Man", [("a", 1, 2, T.Node("Gal")), ("a", 1, 3, T.Node("Fuc")), ("b", 1, 4, T.Node("Xyl")), ("b", 1, 6, T.Node("GlcNAc"))])
     trees.append(("four", four))
